@@ -228,6 +228,9 @@ def variant(base, none_names=(), **changes):
         kw[n] = None
         if n == "charge":
             kw["nelec"] = None
+            if kw.get("mo") is not None:
+                # with orbitals the charge is derived from their occupations: it is undefined when they carry none
+                kw["mo"] = attrs.evolve(kw["mo"], occs=None, occs_aminusb=None)
         if n == "spinpol":
             kw["mo"] = None
     kw.update(changes)
@@ -256,6 +259,8 @@ def rejection_variants(fmt, base):
     nb, norb = mo.nbasis, mo.norb
     gen = MolecularOrbitals("generalized", None, None, np.ones(norb), np.zeros((2 * nb, norb)), np.zeros(norb))
     out.append(("generalized-mo", variant(base, mo=gen), lambda allow: True))
+    # orbitals without the basis they are expanded in: nothing a wavefunction format could write
+    out.append(("mo-without-obasis", variant(base, obasis=None), lambda allow: True))
     if mo.kind == "restricted":
         am = attrs.evolve(mo, occs_aminusb=np.zeros(norb))
         if fmt != "fchk":
